@@ -53,10 +53,17 @@ def make_receiver(spec):
             tube.set_bc(receiver.HeatFluxBC(R, H, nt, nz, times, q), "outer")
             pan.add_tube(tube)
         r.add_panel(pan)
-    for path in spec["paths"]:
+    for k, path in enumerate(spec["paths"]):
         r.add_flowpath([str(i) for i in path], times, np.full(len(times), spec.get("mdot", 2.0e5)),
-                       np.array(spec.get("inlet", [800.0] * len(times)), dtype=float))
+                       np.array(path_inlet(spec, k), dtype=float))
     return r
+
+
+def path_inlet(spec, k):
+    """inlet temperature history of flow path k ("inlets": one history per path, or "inlet": shared)"""
+    if "inlets" in spec:
+        return spec["inlets"][k]
+    return spec.get("inlet", [800.0] * len(spec["times"]))
 
 
 def solve(spec):
@@ -86,7 +93,6 @@ def solve(spec):
 def predicates(spec, r, fl):
     bad = []
     times = np.array(spec["times"], dtype=float)
-    inlet = np.array(spec.get("inlet", [800.0] * len(times)), dtype=float)
     T0 = spec.get("T0", 800.0)
     panels = list(r.panels.values())
     dr = spec.get("T", 1.0) / (spec.get("nr", 5) - 1)
@@ -94,7 +100,15 @@ def predicates(spec, r, fl):
     for tube in r.tubes:
         if np.max(np.abs(tube.results["temperature"][0] - T0)) > 0:
             bad.append("a tube does not start from its initial temperature")
-    for path in spec["paths"]:
+    for kpath, path in enumerate(spec["paths"]):
+        inlet = np.array(path_inlet(spec, kpath), dtype=float)
+        # first stored time: the fluid of every tube of the path is at the path's own inlet temperature
+        for p in path:
+            for t in panels[p].tubes.values():
+                f0 = np.asarray(t.axial_results["fluid_temperature"][0], dtype=float)
+                if np.max(np.abs(f0 - inlet[0])) > 1e-9:
+                    bad.append("t=%g (first stored time): fluid in a tube of panel %d (path %d) is at %r, the path's prescribed inlet is %r"
+                               % (times[0], p, kpath, float(f0[0]), float(inlet[0])))
         for i in range(1, len(times)):
             if spec.get("reset") and np.isclose(times[i] % spec.get("period", 24.0), 0):
                 for p in path:
@@ -358,7 +372,8 @@ def run(ctx):
         {"name": "2D reversed order, steady, varying inlet", "ndim": 2, "times": [0.0, 1.0, 2.0], "panels": [[2], [1, 4]], "paths": [[1, 0]],
          "inlet": [800.0, 810.0, 795.0], "nr": 6},
         {"name": "1D transient with cycle reset", "ndim": 1, "times": [0.0, 1.0, 2.0, 3.0, 4.0], "panels": [[2], [3]], "paths": [[0], [1]],
-         "steady": False, "reset": True, "period": 2.0, "qt": [1.0, 1.0, 0.5, 1.0, 0.5]},
+         "steady": False, "reset": True, "period": 2.0, "qt": [1.0, 1.0, 0.5, 1.0, 0.5],
+         "inlets": [[800.0, 805.0, 800.0, 805.0, 800.0], [840.0, 830.0, 840.0, 830.0, 840.0]]},
     ]
     # tubes of realistic length (8 m): the fluid heats up by about 20 K along a panel, comparable with the
     # wall-to-fluid film drop, so cooling the slice of a 1D/2D tube with the fluid of the wrong height is visible
